@@ -1344,8 +1344,8 @@ RULES = [
 # (name, file, old, new, 'fire'|'silent', rule that must fire)
 VARIANTS = [
     ('host: send before acquire', 'bumble/host.py',
-     "        await self.command_semaphore.acquire()\n\n        # Create a future value to hold the eventual response\n",
-     "        self.send_hci_packet(command)\n        await self.command_semaphore.acquire()\n\n        # Create a future value to hold the eventual response\n",
+     '        await self.command_semaphore.acquire()\n\n        # Nothing can be sent, and no response will come, once the transport is lost\n',
+     '        self.send_hci_packet(command)\n        await self.command_semaphore.acquire()\n\n        # Nothing can be sent, and no response will come, once the transport is lost\n',
      'fire', 'C03.host-send'),
     ('host: finally no longer clears pending_command', 'bumble/host.py',
      "        finally:\n            self.pending_command = None\n            self.pending_response = None\n            if response is None or (",
@@ -1360,8 +1360,8 @@ VARIANTS = [
      "    def send_reset_now(self) -> None:\n        self.send_hci_packet(hci.HCI_Reset_Command())\n\n    def send_sco_sdu(self, connection_handle: int, sdu: bytes) -> None:\n",
      'fire', 'C03.host-send'),
     ('host: benign rename of local', 'bumble/host.py',
-     "            return response\n        except asyncio.TimeoutError:\n            raise\n",
-     "            return response\n        except asyncio.TimeoutError:\n            raise  # timeout\n",
+     '            return response\n        except (asyncio.TimeoutError, asyncio.CancelledError):\n',
+     '            return response  # the awaited response\n        except (asyncio.TimeoutError, asyncio.CancelledError):\n',
      'silent', ''),
     ('controller: dispatcher drops status for async+value', 'bumble/controller.py',
      "            self._send_hci_command_status(\n                getattr(result, 'status', hci.HCI_ErrorCode.SUCCESS), command.op_code\n            )\n",
